@@ -2,12 +2,12 @@
 import vfw
 
 H = 'c16/h_c16.cpp'
-ROOTS = ['h_recognisers', 'h_conversions', 'h_units_prefix', 'h_units_scaling_prefix', 'h_printed_real', 'h_printed_int']
+ROOTS = ['h_recognisers', 'h_conversions', 'h_units_prefix', 'h_units_scaling_prefix', 'h_printed_real', 'h_printed_int', 'h_int_range']
 
 
 def run(fw):
     n = 4 if fw.tier == 'quick' else 6
-    defs = ['MAXLEN=%d' % n, 'VSTD_STR_CAP=15']
+    defs = ['MAXLEN=%d' % n, 'VSTD_STR_CAP=23']
     # one model per root: only the constant tables that root can reach are initialised in it
     ms = dict(vfw.pmap(lambda r: (r, fw.build_model('c16_' + r, H, [r], defines=defs)), ROOTS, 5))
     mws = dict(vfw.pmap(lambda r: (r, fw.build_model('c16w_' + r, H, [r], defines=defs + ['WITNESS'])), ROOTS, 5))
@@ -24,6 +24,7 @@ def run(fw):
         'h_units_scaling_prefix': dict(unwind=n + 2, rules=vfw.std_rules(string=16, vector=8)),
         'h_printed_real': dict(unwind=n + 2, rules=vfw.std_rules()),
         'h_printed_int': dict(unwind=13, rules=vfw.std_rules(string=13)),
+        'h_int_range': dict(unwind=24, rules=vfw.std_rules(string=24)),
     }
     roots = ROOTS if fw.tier == 'thorough' else [r for r in ROOTS if r != 'h_units_scaling_prefix']
     to = 900 if fw.tier == 'quick' else 2400
@@ -31,7 +32,7 @@ def run(fw):
     def ob(root):
         c = cfg[root]
         r = fw.cbmc(ms[root], root, unwind=c['unwind'], unwindset=fw.unwindset(ms[root], root, c['rules']), timeout=to, label='%s[len<=%d]' % (root, n),
-                    symbolic='string length and %d bytes (1..255 each)' % n if root != 'h_printed_int' else 'a 32-bit int')
+                    symbolic='string length and %d bytes (1..255 each)' % n if root not in ('h_printed_int', 'h_int_range') else 'a 32-bit int' if root == 'h_printed_int' else 'sign, stem and last digits of a decimal integer around the int limits')
         fw.log(root, r['status'], r['wall'], [f['msg'] for f in r['failed']][:5])
         fw.handle(r, H, defs, best_effort=(root == 'h_units_scaling_prefix'))
 
